@@ -322,8 +322,8 @@ def hrow : Cls → HRow
   | .SignalState => { attrs := [ra "horn" A, ra "indicator_left" A, ra "indicator_right" A, ra "braking_lights" A,
                                 ra "hazard_warning_lights" A, ra "flashing_blue_lights" A,
                                 ra "time_step" (.or A (C [.Interval]))] }
-  | .MetaInformationState => { attrs := [⟨"meta_data_str", O (D A), .convJson⟩, ⟨"meta_data_int", O (D A), .convJson⟩,
-                                         ⟨"meta_data_float", O (D A), .convJson⟩, ⟨"meta_data_bool", O (D A), .convJson⟩] }
+  | .MetaInformationState => { attrs := [⟨"meta_data_str", O (D A), .opt (.items .raw)⟩, ⟨"meta_data_int", O (D A), .opt (.items .raw)⟩,
+                                         ⟨"meta_data_float", O (D A), .opt (.items .raw)⟩, ⟨"meta_data_bool", O (D A), .opt (.items .raw)⟩] }
   | .Trajectory => { attrs := [ra "initial_time_step" A, it "state_list" (L STATE)] }
   | .Occupancy => { attrs := [ra "time_step" (.or A (C [.Interval])), ra "shape" SHAPE] }
   | .SetBasedPrediction => { attrs := [ra "initial_time_step" A, it "occupancy_set" (L (C [.Occupancy]))] }
